@@ -8,7 +8,8 @@
   `ensembleCols` / `ensembleSift` (column-wise mean of the members, as wide as the widest member);
   `ceemd` / `ceemdLoop` (counter logic of complete_ensemble_sift with an abstract per-layer
   ensemble step); `secondLayer` / `padCols` (one capped sift per first-layer column stored in a
-  zero array of width cap).  `resid x cols = x − Σ cols`.  All statements hold for every
+  zero array of width cap); `maskSecondLayer` (`mask_sift_second_layer`: one capped mask sift per first-layer
+  column, the highest-frequency mask dropped per column, IndexError when the masks run out).  `resid x cols = x − Σ cols`.  All statements hold for every
   extractor, threshold, cap ≥ 1, input and fuel.
 
   Partial: "every result is finite for finite input" is not a theorem (ℚ has no inf/NaN); it is
@@ -84,6 +85,11 @@ theorem maskSift_cap_prefix (M : List Sig → Sig → Option (Sig × Bool)) (thr
   | none => simp [effCap] at *; omega
   | some m => simp only [effCap_eq_min] at *; omega
 
+/-- every masked component is a [samples]-long column (masked extraction meeting the contract `PeelOK`) -/
+theorem maskSift_col_lengths (M : List Sig → Sig → Option (Sig × Bool)) (thr : Rat) (cap : Nat) (nf : Option Nat)
+    (x : Sig) (fuel : Nat) (hM : PeelOK M x.length) : ∀ c ∈ (maskSift M thr cap nf x fuel).1, c.length = x.length :=
+  peelLoop_lengths M thr _ x hM fuel [] x (resid_nil x).symm (by simp)
+
 /-! ### ensemble sift -/
 
 /-- The ensemble result is exactly as wide as its widest member … -/
@@ -132,6 +138,21 @@ theorem ceemd_cols_le_cap (Nx : List Sig → Sig → Sig) (thr : Rat) (x : Sig) 
     · obtain ⟨t, ht⟩ := ceemdLoop_prefix Nx thr (some k) x fuel [Nx [] x]
       rw [← ht]; simp
     · exact ceemdLoop_le_cap Nx thr x k fuel [Nx [] x] (by simp; omega)
+
+/-- every complete-ensemble component is a [samples]-long column when the ensemble step (mean of first IMFs of
+    residual ± noise) returns [samples]-long columns -/
+theorem ceemd_col_lengths (Nx : List Sig → Sig → Sig) (thr : Rat) (cap : Option Nat) (x : Sig) (fuel : Nat)
+    (hN : ∀ cols p, p.length = x.length → (Nx cols p).length = x.length) :
+    ∀ c ∈ (ceemd Nx thr cap x fuel).1, c.length = x.length := by
+  have h0 : ∀ c ∈ [Nx [] x], c.length = x.length := by
+    intro c hc; simp only [List.mem_singleton] at hc; subst hc; exact hN [] x rfl
+  unfold ceemd
+  simp only []
+  split
+  · split
+    · exact h0
+    · exact ceemdLoop_lengths Nx thr _ x hN fuel _ h0
+  · exact ceemdLoop_lengths Nx thr _ x hN fuel _ h0
 
 /-! ### second layer -/
 
@@ -197,6 +218,135 @@ theorem secondLayer_over_sift (X : Nat → Sig → Option (Sig × Bool)) (thr : 
         | succ k => simp
     exact secondLayer_block _ n ia cap i col hi (sift_cols_le_cap X thr col fuel _ hpos)
 
+/-! ### mask second layer (`mask_sift_second_layer`)
+
+  `maskSecondLayer MS n ia nfreqs cap`: `MS ii k col` is the mask sift of first-layer column `ii` with the masks
+  `mask_freqs[ii:]` and `max_imfs = k` (`none` = it raised); `nfreqs = len(mask_freqs)`. -/
+
+/-- mask_sift_second_layer, when it returns, returns a [samples × first-layer components × cap] array (cap defaults
+    to the number of first-layer components): one block for EVERY first-layer column, each exactly `cap` wide, all
+    columns [samples] long — and it can only return when there is at least one mask per first-layer column. -/
+theorem maskSecondLayer_shape (MS : Nat → Nat → Sig → Option (List Sig)) (n : Nat) (ia : List Sig) (nfreqs : Nat)
+    (cap : Option Nat) (blocks : List (List Sig))
+    (hS : ∀ i k col cols, MS i k col = some cols → ∀ c ∈ cols, c.length = n)
+    (h : maskSecondLayer MS n ia nfreqs cap = .ok blocks) :
+    blocks.length = ia.length ∧ ia.length ≤ nfreqs ∧
+    ∀ blk ∈ blocks, blk.length = cap.getD ia.length ∧ ∀ c ∈ blk, c.length = n := by
+  obtain ⟨h1, h2, h3⟩ := maskSecondLoop_ok MS n _ nfreqs ia 0 blocks h
+  refine ⟨h1, ?_, ?_⟩
+  · cases hl : ia.length with
+    | zero => omega
+    | succ m => have := h2 m (by omega); omega
+  · intro blk hb
+    obtain ⟨j, hj⟩ := List.getElem?_of_mem hb
+    have hjl : j < ia.length := by
+      rw [← h1]; apply Nat.lt_of_not_le; intro hge; rw [List.getElem?_eq_none hge] at hj; cases hj
+    obtain ⟨cols, e1, e2⟩ := h3 j ia[j] (List.getElem?_eq_getElem hjl)
+    rw [hj] at e2
+    simp only [Option.some.injEq] at e2
+    subst e2
+    exact ⟨padCols_length _ _ _, padCols_col_length n _ _ (hS _ _ _ _ e1)⟩
+
+/-- block i holds the mask sift of first-layer column i — taken with the masks `mask_freqs[i:]` (the highest-frequency
+    mask dropped for each successive column) and the common cap — followed by zero columns. -/
+theorem maskSecondLayer_block (MS : Nat → Nat → Sig → Option (List Sig)) (n : Nat) (ia : List Sig) (nfreqs : Nat)
+    (cap : Option Nat) (blocks : List (List Sig)) (h : maskSecondLayer MS n ia nfreqs cap = .ok blocks)
+    (i : Nat) (col : Sig) (hi : ia[i]? = some col) :
+    ∃ cols blk, MS i (cap.getD ia.length) col = some cols ∧ blocks[i]? = some blk ∧
+      (∀ j, j < cols.length → j < cap.getD ia.length → blk[j]? = cols[j]?) ∧
+      (∀ j, cols.length ≤ j → j < cap.getD ia.length → blk[j]? = some (Sig.zeros n)) := by
+  obtain ⟨_, _, h3⟩ := maskSecondLoop_ok MS n _ nfreqs ia 0 blocks h
+  obtain ⟨cols, e1, e2⟩ := h3 i col hi
+  rw [Nat.zero_add] at e1
+  exact ⟨cols, _, e1, e2, fun j hj hk => padCols_getElem n _ _ j hj hk, fun j hj hk => padCols_zero n _ _ j hj hk⟩
+
+/-- When does it return: exactly when there are at least as many masks as first-layer columns and no column's mask
+    sift raises.  With fewer masks, the first column left without a mask (index `len(mask_freqs)`) raises IndexError
+    — after the earlier columns have been sifted. -/
+theorem maskSecondLayer_ok_iff (MS : Nat → Nat → Sig → Option (List Sig)) (n : Nat) (ia : List Sig) (nfreqs : Nat)
+    (cap : Option Nat) :
+    ((∃ blocks, maskSecondLayer MS n ia nfreqs cap = .ok blocks) ↔
+      ia.length ≤ nfreqs ∧ ∀ i col, ia[i]? = some col → MS i (cap.getD ia.length) col ≠ none) ∧
+    (nfreqs < ia.length → (∀ i col, i < nfreqs → ia[i]? = some col → MS i (cap.getD ia.length) col ≠ none) →
+      maskSecondLayer MS n ia nfreqs cap = .indexError nfreqs) := by
+  refine ⟨⟨?_, ?_⟩, ?_⟩
+  · rintro ⟨blocks, h⟩
+    obtain ⟨h1, h2, h3⟩ := maskSecondLoop_ok MS n _ nfreqs ia 0 blocks h
+    refine ⟨?_, ?_⟩
+    · cases hl : ia.length with
+      | zero => omega
+      | succ m => have := h2 m (by omega); omega
+    · intro i col hi
+      obtain ⟨cols, e1, _⟩ := h3 i col hi
+      rw [Nat.zero_add] at e1
+      simp [e1]
+  · rintro ⟨hle, hm⟩
+    exact maskSecondLoop_total MS n _ nfreqs ia 0 (fun j hj => by omega)
+      (fun j col hj => by rw [Nat.zero_add]; exact hm j col hj)
+  · intro hlt hm
+    exact maskSecondLoop_exhausted MS n _ nfreqs ia 0 (Nat.zero_le _) (by omega)
+      (fun j col hj hl => by rw [Nat.zero_add] at hj ⊢; exact hm j col hj hl)
+
+/-- Composition with the mask sift of this model (`maskSiftCol`: `Sift.maskSift` on the masks left for the column):
+    for any masked extraction meeting the contract `PeelOK`, a returning `mask_sift_second_layer` has the documented
+    shape, and block `i` is the mask sift of first-layer column `i` followed by zero columns, where that sift has
+    at most `cap` components and at most `len(mask_freqs) - i` (the masks left) — nothing is ever cut off. -/
+theorem maskSecondLayer_over_maskSift (M : Nat → List Sig → Sig → Option (Sig × Bool)) (thr : Rat) (fuel n : Nat)
+    (hM : ∀ i, PeelOK (M i) n) (ia : List Sig) (hia : ∀ c ∈ ia, c.length = n) (nfreqs : Nat) (cap : Option Nat)
+    (hc : cap ≠ some 0) (blocks : List (List Sig))
+    (h : maskSecondLayer (maskSiftCol M thr nfreqs fuel) n ia nfreqs cap = .ok blocks) :
+    blocks.length = ia.length ∧ ia.length ≤ nfreqs ∧
+    (∀ blk ∈ blocks, blk.length = cap.getD ia.length ∧ ∀ c ∈ blk, c.length = n) ∧
+    ∀ (i : Nat) (col : Sig), ia[i]? = some col →
+      ∃ blk, blocks[i]? = some blk ∧
+        (maskSift (M i) thr (cap.getD ia.length) (some (nfreqs - i)) col fuel).1.length ≤ cap.getD ia.length ∧
+        (maskSift (M i) thr (cap.getD ia.length) (some (nfreqs - i)) col fuel).1.length ≤ nfreqs - i ∧
+        (∀ j : Nat, j < (maskSift (M i) thr (cap.getD ia.length) (some (nfreqs - i)) col fuel).1.length →
+          blk[j]? = (maskSift (M i) thr (cap.getD ia.length) (some (nfreqs - i)) col fuel).1[j]?) ∧
+        (∀ j : Nat, (maskSift (M i) thr (cap.getD ia.length) (some (nfreqs - i)) col fuel).1.length ≤ j →
+          j < cap.getD ia.length → blk[j]? = some (Sig.zeros n)) := by
+  have hcols : ∀ i k col, col ∈ ia → ∀ c ∈ (maskSift (M i) thr k (some (nfreqs - i)) col fuel).1, c.length = n := by
+    intro i k col hcol c hcm
+    have hn := hia col hcol
+    rw [← hn]
+    exact peelLoop_lengths (M i) thr _ col (hn ▸ hM i) fuel [] col (resid_nil col).symm (by simp) c hcm
+  obtain ⟨h1, h2, h3⟩ := maskSecondLoop_ok _ n _ nfreqs ia 0 blocks h
+  have hle : ia.length ≤ nfreqs := by
+    cases hl : ia.length with
+    | zero => omega
+    | succ m => have := h2 m (by omega); omega
+  refine ⟨h1, hle, ?_, ?_⟩
+  · intro blk hb
+    obtain ⟨j, hj⟩ := List.getElem?_of_mem hb
+    have hjl : j < ia.length := by
+      rw [← h1]; apply Nat.lt_of_not_le; intro hge; rw [List.getElem?_eq_none hge] at hj; cases hj
+    obtain ⟨cols, e1, e2⟩ := h3 j ia[j] (List.getElem?_eq_getElem hjl)
+    rw [hj] at e2
+    simp only [Option.some.injEq] at e2
+    subst e2
+    refine ⟨padCols_length _ _ _, padCols_col_length n _ _ ?_⟩
+    rw [maskSiftCol_some M thr nfreqs fuel _ _ _ cols e1]
+    exact hcols _ _ _ (List.getElem_mem hjl)
+  · intro i col hi
+    have hil : i < ia.length := by
+      apply Nat.lt_of_not_le; intro hge; rw [List.getElem?_eq_none hge] at hi; cases hi
+    obtain ⟨cols, e1, e2⟩ := h3 i col hi
+    rw [Nat.zero_add] at e1
+    have hcs := maskSiftCol_some M thr nfreqs fuel _ _ _ cols e1
+    have hpos : 0 < cap.getD ia.length := by
+      cases cap with
+      | none => simp; omega
+      | some k => cases k with
+        | zero => exact absurd rfl hc
+        | succ k => simp
+    have hcap := maskSift_cols_le_cap (M i) thr (cap.getD ia.length) (some (nfreqs - i)) col fuel hpos
+      (fun m hm => by simp only [Option.some.injEq] at hm; omega)
+    rw [← hcs]
+    rw [← hcs] at hcap
+    refine ⟨_, e2, hcap.1, hcap.2 _ rfl, ?_, ?_⟩
+    · intro j hj; exact padCols_getElem n _ _ j hj (by omega)
+    · intro j hj hk; exact padCols_zero n _ _ j hj hk
+
 /-! ### Non-vacuity -/
 
 /-- a table extractor that never clears the flag: layer k returns the constant column k+1 -/
@@ -214,5 +364,18 @@ example : (ceemd tabN 0 (some 1) [0, 5, 0, 5, 0, 5, 0] 9).1.length = 1 := by dec
 example : (ceemd tabN 0 none [0, 5, 0, 5, 0, 5, 0] 4).1.length = 5 := by decide +kernel
 example : secondLayer (fun k col => [col, col].take k) 2 [[1, 2], [3, 4], [5, 6]] (some 3)
     = [[[1, 2], [1, 2], [0, 0]], [[3, 4], [3, 4], [0, 0]], [[5, 6], [5, 6], [0, 0]]] := by decide +kernel
+/-- a masked extraction that never clears the flag: layer k of column ii returns the constant column ii+k+1 -/
+def tabM : Nat → List Sig → Sig → Option (Sig × Bool) := fun ii cols p => some (p.map fun _ => (ii + cols.length + 1 : Rat), true)
+-- three first-layer columns, three masks, default cap 3: column i keeps 3 - i masks (the staircase of the real code)
+example : maskSecondLayer (maskSiftCol tabM 0 3 9) 2 [[1, 2], [3, 4], [5, 6]] 3 none
+    = .ok [[[1, 1], [2, 2], [3, 3]], [[2, 2], [3, 3], [0, 0]], [[3, 3], [0, 0], [0, 0]]] := by decide +kernel
+-- two masks for three columns: IndexError at column 2
+example : maskSecondLayer (maskSiftCol tabM 0 2 9) 2 [[1, 2], [3, 4], [5, 6]] 2 none = .indexError 2 := by decide +kernel
+-- five masks, cap 2: every block is full
+example : maskSecondLayer (maskSiftCol tabM 0 5 9) 2 [[1, 2], [3, 4], [5, 6]] 5 (some 2)
+    = .ok [[[1, 1], [2, 2]], [[2, 2], [3, 3]], [[3, 3], [4, 4]]] := by decide +kernel
+example : ∀ i, PeelOK (tabM i) 2 :=
+  fun i => ⟨fun cols p c f hp hx => by simp only [tabM, Option.some.injEq, Prod.mk.injEq] at hx; rw [← hx.1]; simpa using hp,
+            fun cols p c hx => by simp [tabM] at hx⟩
 
 end C03
